@@ -16,6 +16,16 @@ use std::sync::atomic::{AtomicBool, AtomicU32, AtomicUsize, Ordering};
 use std::sync::{Arc, Mutex};
 use std::task::{Context, Poll, Wake, Waker};
 
+/// bumped by the polling thread at every step; a watchdog thread reports a stall (a hang inside the crate)
+static PROGRESS: std::sync::atomic::AtomicU64 = std::sync::atomic::AtomicU64::new(0);
+/// 0 = between scenarios, 1 = polling / pushing, 2 = dropping the collection, 3 = dropping the last wakers
+static PHASE: std::sync::atomic::AtomicUsize = std::sync::atomic::AtomicUsize::new(0);
+static CUR_ITER: std::sync::atomic::AtomicU64 = std::sync::atomic::AtomicU64::new(0);
+fn step(phase: usize) {
+    PHASE.store(phase, Ordering::Relaxed);
+    PROGRESS.fetch_add(1, Ordering::Relaxed);
+}
+
 fn splitmix(x: &mut u64) -> u64 {
     *x = x.wrapping_add(0x9E3779B97F4A7C15);
     let mut z = *x;
@@ -51,6 +61,9 @@ struct Scenario {
     threads: Vec<Vec<WOp>>,
     drop_early: bool,
     change_waker: bool,
+    /// UB/UU/OU: how many further children the poller pushes (one per yielded output) while the other threads are
+    /// still using wakers - also stale wakers of the slots that these pushes re-use
+    refill: usize,
 }
 
 fn gen(seed: u64, iter: u64, max_children: usize) -> Scenario {
@@ -83,6 +96,7 @@ fn gen(seed: u64, iter: u64, max_children: usize) -> Scenario {
         threads,
         drop_early: splitmix(r) % 4 == 0,
         change_waker: splitmix(r) % 2 == 0,
+        refill: if matches!(subj, Subj::UB | Subj::UU | Subj::OU) { (splitmix(r) % 4) as usize } else { 0 },
     }
 }
 
@@ -235,13 +249,15 @@ impl Coll {
 
 fn run(sc: &Scenario) -> Result<(u64, u64), String> {
     let n = sc.n;
+    // ids n..total are pushed by the poller during the run (already complete when pushed)
+    let total = n + sc.refill;
     let sh = Arc::new(Shared {
         n,
-        ready: (0..n).map(|_| AtomicU32::new(0)).collect(),
-        done: (0..n).map(|_| AtomicBool::new(false)).collect(),
-        dropped: (0..n).map(|_| AtomicU32::new(0)).collect(),
-        produced: (0..n).map(|_| AtomicU32::new(0)).collect(),
-        stash: (0..n).map(|_| Mutex::new(Vec::new())).collect(),
+        ready: (0..total).map(|i| AtomicU32::new(if i >= n { 1 } else { 0 })).collect(),
+        done: (0..total).map(|_| AtomicBool::new(false)).collect(),
+        dropped: (0..total).map(|_| AtomicU32::new(0)).collect(),
+        produced: (0..total).map(|_| AtomicU32::new(0)).collect(),
+        stash: (0..total).map(|_| Mutex::new(Vec::new())).collect(),
         polled_after_done: AtomicBool::new(false),
         threads_done: AtomicUsize::new(0),
     });
@@ -277,8 +293,9 @@ fn run(sc: &Scenario) -> Result<(u64, u64), String> {
         Subj::MU => Coll::MU((0..n).map(ms).collect()),
         Subj::JA => Coll::JA(join_all((0..n).map(mk))),
     });
-    let mut yielded = vec![false; n];
-    let mut items = vec![0u32; n];
+    let mut yielded = vec![false; total];
+    let mut items = vec![0u32; total];
+    let mut next_push = n;
     let mut resolved = false;
     let mut polls = 0u64;
     let mut last_k = 0usize;
@@ -390,7 +407,9 @@ fn run(sc: &Scenario) -> Result<(u64, u64), String> {
         }
         if sc.drop_early {
             // the collection dies while the other threads are still using its wakers
+            step(2);
             drop(coll.take());
+            step(1);
         }
         let mut guard = 0u64;
         loop {
@@ -417,17 +436,36 @@ fn run(sc: &Scenario) -> Result<(u64, u64), String> {
             if !last_pending || woken {
                 let k = if sc.change_waker && polls % 3 == 2 { 1 - last_k } else { last_k };
                 at_start = [tws[0].count.load(Ordering::SeqCst), tws[1].count.load(Ordering::SeqCst)];
+                step(1);
                 let mut cx = Context::from_waker(&wakers[k]);
                 let g = c.poll(&mut cx);
                 polls += 1;
                 last_k = k;
                 last_pending = matches!(g, Got::Pending | Got::Done);
+                let got_one = matches!(g, Got::Fut(_));
                 handle!(g);
+                if got_one && next_push < total {
+                    // a slot has just been vacated: push into it while stale wakers of its previous occupant are
+                    // (possibly right now) being used by the other threads
+                    let f = mk(next_push);
+                    match c {
+                        Coll::UB(q) => {
+                            if q.try_push(f).is_err() {
+                                return Err(format!("push of child {next_push} refused although an output was just yielded"));
+                            }
+                        }
+                        Coll::UU(q) => q.push(f),
+                        Coll::OU(q) => q.push_back(f),
+                        _ => unreachable!(),
+                    }
+                    next_push += 1;
+                }
                 continue;
             }
             if all_done {
                 break;
             }
+            step(1);
             std::thread::park_timeout(std::time::Duration::from_micros(200));
         }
         Ok(())
@@ -435,7 +473,7 @@ fn run(sc: &Scenario) -> Result<(u64, u64), String> {
     result?;
     // quiescence oracle
     if coll.is_some() && !resolved {
-        for i in 0..n {
+        for i in 0..next_push {
             let r = sh.ready[i].load(Ordering::SeqCst);
             if is_merge {
                 if items[i] < r {
@@ -451,12 +489,15 @@ fn run(sc: &Scenario) -> Result<(u64, u64), String> {
     if sh.polled_after_done.load(Ordering::SeqCst) {
         return Err("a finished child was polled again".into());
     }
+    step(2);
     drop(coll.take());
-    for i in 0..n {
+    step(3);
+    for i in 0..total {
         let st = std::mem::take(&mut *sh.stash[i].lock().unwrap());
         drop(st);
     }
-    for i in 0..n {
+    step(0);
+    for i in 0..next_push {
         let d = sh.dropped[i].load(Ordering::SeqCst);
         if d != 1 {
             return Err(format!("child {i} dropped {d} times"));
@@ -472,6 +513,7 @@ fn main() {
     let mut seed = 1u64;
     let mut iters = 200u64;
     let mut maxc = 4usize;
+    let mut hang_secs = 30u64;
     let mut i = 1;
     while i < args.len() {
         match args[i].as_str() {
@@ -481,6 +523,10 @@ fn main() {
             }
             "--iters" => {
                 iters = args[i + 1].parse().unwrap();
+                i += 1
+            }
+            "--hang-secs" => {
+                hang_secs = args[i + 1].parse().unwrap();
                 i += 1
             }
             "--max-children" => {
@@ -496,7 +542,31 @@ fn main() {
     let mut offthread = 0u64;
     let mut nontrivial = 0u64;
     let mut early = 0u64;
+    if !cfg!(miri) && hang_secs > 0 {
+        std::thread::spawn(move || {
+            let mut last = PROGRESS.load(Ordering::Relaxed);
+            let mut stalled = 0u64;
+            loop {
+                std::thread::sleep(std::time::Duration::from_secs(1));
+                let now = PROGRESS.load(Ordering::Relaxed);
+                if now == last {
+                    stalled += 1;
+                } else {
+                    stalled = 0;
+                    last = now;
+                }
+                if stalled >= hang_secs {
+                    let it = CUR_ITER.load(Ordering::Relaxed);
+                    let ph = ["between scenarios", "poll/push", "drop of the collection", "drop of the last wakers"][PHASE.load(Ordering::Relaxed) % 4];
+                    println!("E4-HANG seed={seed} iter={it} :: no progress for {hang_secs} s in phase '{ph}' (a scenario normally takes microseconds) :: {:?}", gen(seed, it, maxc));
+                    std::process::exit(3);
+                }
+            }
+        });
+    }
     for it in 0..iters {
+        CUR_ITER.store(it, Ordering::Relaxed);
+        step(0);
         let sc = gen(seed, it, maxc);
         // ops that use a waker on a thread other than the polling one
         let ops: u64 = sc.threads.iter().map(|t| t.iter().filter(|o| !matches!(o, WOp::Yield)).count() as u64).sum();
